@@ -346,4 +346,56 @@ func TestWire(t *testing.T) {
 		tw.Put(ev)
 		rw.Put(mbt.Result{ID: ev.Tr, Key: fmt.Sprint(ev.Tr), NonTriv: true, Verdict: "ok"})
 	}
+	// two trusted servers with different heads: a real ExchangeServer over a short store answers first (NOT_FOUND for
+	// what it does not have), a slower peer holds the whole chain; Get / GetByHeight must return the longer server's data
+	for run := 0; run < 3; run++ {
+		var ev RangeEv
+		synctest.Test(t, func(t *testing.T) {
+			bg := context.Background()
+			short, long := 4+run, 9+2*run
+			chain := vh.NewChain(networkID, 1, long+2, time.Now().Add(-time.Hour), time.Second, 0)
+			st, _ := newStore(t, chain, 1, short)
+			net, hosts := newNet(t, 3)
+			srv, err := newServer(hosts[1], st)
+			if err != nil {
+				t.Fatal(err)
+			}
+			newSpeer(hosts[2], false, func(r reqLog) plan {
+				var pl plan
+				if len(r.Hash) > 0 {
+					pl = notFoundPlan()
+					for h := 1; h <= long; h++ {
+						if x := chain.At(uint64(h)); string(x.Hash()) == string(r.Hash) {
+							pl = plan{items: []item{okItem(x)}, end: "close"}
+						}
+					}
+				} else {
+					pl, _, _ = behave("serve", r, chain, long, 0, 64)
+				}
+				pl.delay = time.Second // the short server's answer arrives first
+				return pl
+			})
+			ex := newExchange(t, hosts[0], []peer.ID{hosts[1].ID(), hosts[2].ID()}, 4)
+			time.Sleep(time.Second)
+			synctest.Wait()
+			ctx, cancel := context.WithTimeout(bg, time.Minute)
+			ev = RangeEv{Tr: 100100 + run, Ev: "wire", OK: true, Sent: []int{}, Heights: []int{}}
+			want := chain.At(uint64(short + 2))
+			if h, err := ex.GetByHeight(ctx, want.H); err != nil || h == nil || h.Hash().String() != want.Hash().String() {
+				ev.OK, ev.Err = false, fmt.Sprintf("GetByHeight(%d) with a shorter server answering first: %v", want.H, err)
+			}
+			if h, err := ex.Get(ctx, want.Hash()); err != nil || h == nil || h.Hash().String() != want.Hash().String() {
+				ev.OK, ev.Err = false, fmt.Sprintf("Get(hash of %d) with a shorter server answering first: %v", want.H, err)
+			}
+			cancel()
+			_ = ex.Stop(bg)
+			_ = srv.Stop(bg)
+			_ = st.Stop(bg)
+			_ = net.Close()
+			time.Sleep(time.Minute)
+			synctest.Wait()
+		})
+		tw.Put(ev)
+		rw.Put(mbt.Result{ID: ev.Tr, Key: fmt.Sprint(ev.Tr), NonTriv: true, Verdict: "ok"})
+	}
 }
